@@ -369,7 +369,12 @@ class C10(PropCheck):
                                  cyc=rng.choice([0, 0, 0.15, 0.3])))
         out = []
         self.discarded = 0
-        for c in cand:
+        for i, c in enumerate(cand):
+            # hooks registered directly or through customize(elaborate=...); sequence results as tuples or as lists
+            if i % 3 == 1:
+                c["via"] = "customize"
+            if i % 4 == 2:
+                c["seq_as_list"] = True
             try:
                 reference(c, budget=4000)   # elaborate hooks that re-create their own frame never end: not in the property's space
             except SpecDiverges:
